@@ -264,7 +264,8 @@ theorem C13_memory_rooms_summary (sh : Shape) (lh lw : Int) (ys xs : List Int) (
           (∀ q, s.grid.contains q = true →
             (∃ c, (q, c) ∈ exits ∧ s.grid.at q = .exit c) ∨ s.grid.at q = .beacon good ∨
             (s.grid.at q = g.at q ∧ ∀ c, (q, c) ∉ exits)) ∧
-          (∀ pc ∈ exits, s.grid.at pc.1 = .exit pc.2)) ∧
+          (∀ pc ∈ exits, s.grid.at pc.1 = .exit pc.2) ∧
+          good ∈ colors ∧ (∀ pc ∈ exits, pc.2 ∈ colors)) ∧
       (¬ (1 + nb.toNat + ne.toNat ≤ (floorPositions g).length ∧ ne.toNat ≤ colors.length) →
         resetMemoryRooms sh lh lw ys xs colors nb ne d = .error .valueError) := by
   obtain ⟨g, d1, eg, rg⟩ := roomsGrid_spec sh lh lw ys xs d hh hw hl sy sx dy dx
@@ -293,7 +294,7 @@ theorem C13_memory_rooms_summary (sh : Shape) (lh lw : Int) (ys xs : List Int) (
       | nil => simp at hne2
       | cons a r => exact ⟨a, r, rfl⟩
     refine ⟨s, d', (crest.drop nb.toNat).zip sample, good, he, wf', by rw [gh', rg.gh], by rw [gw', rg.gw],
-      ?_, ?_, hheld, ?_, ?_, ?_, ?_, ?_, hex'⟩
+      ?_, ?_, hheld, ?_, ?_, ?_, ?_, ?_, hex', ?_, ?_⟩
     · rw [hag, hc]; exact (cfl c0 List.mem_cons_self).1
     · rw [hag, hout c0 cnd.1]; exact (cfl c0 List.mem_cons_self).2
     · simp [hzl, hsl]
@@ -322,6 +323,11 @@ theorem C13_memory_rooms_summary (sh : Shape) (lh lw : Int) (ys xs : List Int) (
         have : q ∈ ((crest.drop nb.toNat).zip sample).map Prod.fst := List.mem_map.mpr ⟨(q, c), hmem, rfl⟩
         rw [hzfst] at this
         exact hqc (List.mem_of_mem_drop this)
+    · exact (smem good (by rw [hsamp]; exact List.mem_cons_self)).1
+    · intro pc hpc
+      have : pc.2 ∈ ((crest.drop nb.toNat).zip sample).map Prod.snd := List.mem_map.mpr ⟨pc, hpc, rfl⟩
+      rw [hzsnd] at this
+      exact (smem pc.2 this).1
   · intro hbad
     apply C13_memory_rooms_rejects_fit sh lh lw ys xs colors nb ne d g d1 eg hp
     omega
